@@ -1,10 +1,23 @@
 --------------------------- MODULE GenParams ---------------------------
 (* GEN config for C03/C04: one state per parameter descriptor; Emit prints it with its request fragments. *)
 EXTENDS ParamCases, Json
+CONSTANT Deep     \* thorough tier: beside the shaped fragments, every short token sequence
 VARIABLE p
+\* every sequence of at most three tokens (item lexemes and all four separators) in which no two lexemes are
+\* adjacent (two adjacent lexemes would be one longer lexeme, outside the lexeme tables): leading, trailing and
+\* doubled separators, foreign separators inside an item, white space on either side
+TokSeqs(L, n) == {s \in UNION {[1..k -> L \cup SepToks] : k \in 0..n} : \A i \in 1..(Len(s) - 1) : ~(s[i] \in L /\ s[i + 1] \in L)}
+DeepFrags(q) ==
+  IF q.type # "array"
+    THEN IF q["in"] \in {"query", "formData"}
+           THEN {Two(<<x>>, <<y>>) : x, y \in ScalarLexemes(q)} \cup {Two(<<x>>, <<>>) : x \in ScalarLexemes(q)} \cup {Two(<<>>, <<x>>) : x \in ScalarLexemes(q)}
+           ELSE {}
+  ELSE IF q.items.type = "array" THEN {}
+  ELSE {One(s) : s \in TokSeqs(ItemLexemes(q.items), 3)}
+AllFrags(q) == IF Deep THEN Frags(q) \cup DeepFrags(q) ELSE Frags(q)
 Init == p \in Params
 Next == UNCHANGED p
-Emit == PrintT(<<"CASE", ToJson([p |-> p, frags |-> Frags(p)])>>)
+Emit == PrintT(<<"CASE", ToJson([p |-> p, frags |-> AllFrags(p)])>>)
 \* design level: Bind is total on the universe (evaluates without error on every fragment)
-Sane == \A f \in Frags(p) : Bind(p, f).ok \in BOOLEAN
+Sane == \A f \in AllFrags(p) : Bind(p, f).ok \in BOOLEAN
 =============================================================================
